@@ -6,8 +6,10 @@
 //!   simcheck selftest <id> <quick|thorough> determinism self-test
 //!   simcheck worker <id> <seed> <lo> <hi> <tier>   (internal)
 //!   simcheck exec <id> <file>                      (internal)
+mod c16;
 mod c17;
 mod common;
+mod hostsim;
 mod pipeline;
 mod rng;
 
@@ -20,6 +22,7 @@ pub const DEFAULT_SEED: u64 = 20_260_925;
 
 fn engine(id: &str) -> &'static dyn Engine {
     match id {
+        "C16" => &c16::C16,
         "C17" => &c17::C17,
         _ => {
             eprintln!("harness error: no engine for property {id}");
@@ -47,6 +50,11 @@ fn ctx(tier: Tier) -> Ctx {
 }
 
 fn main() {
+    // nothing this harness does needs more; a runaway must not take the machine down
+    unsafe {
+        let lim = libc::rlimit { rlim_cur: 24 << 30, rlim_max: 24 << 30 };
+        libc::setrlimit(libc::RLIMIT_AS, &lim);
+    }
     let a: Vec<String> = std::env::args().collect();
     let arg = |k: usize| a.get(k).map(String::as_str).unwrap_or("");
     match arg(1) {
